@@ -10,13 +10,13 @@ import (
 
 func init() {
 	register(&propSpec{ID: "C05", Level: "other", Run: runC05,
-		Explain: otherNote + "C05: decided = both IDs are aligned to the per-axis minimum zoom with integrate.ChangeExtendedSpatialIdsZoom itself; the array form is the disjunction of the pair form; every element of both lists is inserted/queried; the tree is never queried when empty; both halves of the altitude-key range are consumed (known finding D8); malformed IDs fail.",
+		Explain: otherNote + "C05: decided = both IDs are aligned to the per-axis minimum zoom with integrate.ChangeExtendedSpatialIdsZoom itself; the array form is the disjunction of the pair form; every element of both lists is inserted/queried; the tree is never queried when empty; both halves of the altitude-key range are consumed (known finding D8); malformed IDs fail; the aligned IDs that are compared as strings are printed from parsed integers.",
 		Canary:  []CanaryExpect{{Rule: "RANGEUSE", Bad: "canaryBadDropMax", Good: "canaryGoodBothBounds"}}})
 	register(&propSpec{ID: "C06", Level: "other", Run: runC06,
 		Explain: otherNote + "C06: decided = result de-duplicated on every success path; the end-point voxels are part of every returned list; single-voxel short cut; every midpoint voxel is reported and looked up at the requested zooms; spatial form = extended form with h = v. Gap-freeness and 'only voxels the segment touches' are NOT decided.",
 		Canary:  []CanaryExpect{{Rule: "KIND-LAYOUT", Bad: "canaryBadFloatText", Good: "canaryGoodIntText"}}})
 	register(&propSpec{ID: "C07", Level: "other", Run: runC07,
-		Explain: otherNote + "C07: decided = output layout hZoom/x/y/vZoom/f with zooms copied, x and y wrapped by isomorphic computations, the vertical index exactly f + dv (no clamp, wrap or branch), malformed input yields the empty ID. Exactness of the float Pow/Mod arithmetic is NOT decided.",
+		Explain: otherNote + "C07: decided = output layout hZoom/x/y/vZoom/f with zooms copied, x and y wrapped by isomorphic computations, the vertical index exactly f + dv (no clamp, wrap or branch), malformed input yields the empty ID; no non-empty return hands back the parsed ID with its vertical index untouched on a path that does not depend on dv. Exactness of the float Pow/Mod arithmetic is NOT decided.",
 		Canary: []CanaryExpect{{Rule: "NOWRAP-F", Bad: "canaryBadClampF", Good: "canaryGoodPlainF"},
 			{Rule: "REM-SIGN", Bad: "canaryBadRemWrap", Good: ""}, {Rule: "FLOATGUARD", Bad: "canaryBadFloatGuard", Good: ""}}})
 	register(&propSpec{ID: "C08", Level: "other", Run: runC08,
@@ -44,6 +44,7 @@ func runC05(w *World, r *Report, tier string) {
 	ruleExistsLoop(w, r)
 	ruleTreeOverlap(w, r)
 	ruleRangeUse(w, r, det)
+	ruleVerbatim(w, r, "integrate.ChangeExtendedSpatialIdsZoom") // the aligned IDs are compared as strings
 	// single-pair spatial form = array form on two singletons
 	if f := lookupByName(w, "detector.CheckSpatialIdsOverlap"); f != nil {
 		g := lookupByName(w, "detector.CheckSpatialIdsArrayOverlap")
@@ -315,6 +316,86 @@ func ruleNoWrapF(w *World, r *Report, f *ssa.Function) {
 			r.Add(Obligation{Rule: "NOWRAP-F", Key: key, Pos: pos, Status: Violated, Detail: "the printed vertical index is not the plain sum of the parsed index and dv: " + why + " (" + describeValue(fv) + "); the vertical axis must be advanced without bound, exactly", Canary: can})
 		} else {
 			r.Add(Obligation{Rule: "NOWRAP-F", Key: key, Pos: pos, Status: Undecided, Detail: "the printed vertical index (" + describeValue(fv) + ") was not recognised as the plain sum of the parsed index and dv", Canary: can})
+		}
+	}
+	// a return of the parsed object's own ID with no vertical setter on the way (a shortcut in
+	// front of the shift): the vertical index is f, not f + dv
+	if idFn := lookupByName(w, "common/object.(ExtendedSpatialID).ID"); idFn != nil && len(f.Params) >= 4 {
+		k := 0
+		for _, ret := range returnsOf(f) {
+			c, ok := resolve(ret.Results[0]).(*ssa.Call)
+			if !ok || calleeOf(c) != idFn || len(c.Call.Args) != 1 {
+				continue
+			}
+			recv := stripConv(c.Call.Args[0])
+			obj := recv
+			if ld, ok := loadOf(recv); ok {
+				obj = ld
+			}
+			// the receiver is the object parsed from the input (not a copy built elsewhere)
+			setZ := false
+			instrs(f, func(in ssa.Instruction) {
+				sc, ok := in.(*ssa.Call)
+				if !ok || calleeOf(sc) == nil || len(sc.Call.Args) < 2 || stripConv(sc.Call.Args[0]) != obj {
+					return
+				}
+				g := calleeOf(sc)
+				for i := 1; i < len(sc.Call.Args); i++ {
+					if role := ke.paramRole(g, i); role != nil && role.Scalar&ks(kF) != 0 {
+						if reachableFrom(sc.Block(), nil)[c.Block()] {
+							setZ = true
+						}
+					}
+				}
+			})
+			if setZ {
+				continue
+			}
+			if _, isCall := obj.(*ssa.Call); !isCall {
+				if _, isEx := obj.(*ssa.Extract); !isEx {
+					continue
+				}
+			}
+			k++
+			key := fmt.Sprintf("NOWRAP-F / %s / unshifted return#%d", name, k)
+			// is the return behind a test of dv (v == 0: nothing to advance)?
+			dv := f.Params[3]
+			tested := false
+			for _, blk := range f.Blocks {
+				_, _, ifi := ifSuccs(blk)
+				if ifi == nil || !blk.Dominates(ret.Block()) {
+					continue
+				}
+				var walk func(v ssa.Value, d int) bool
+				walk = func(v ssa.Value, d int) bool {
+					if d > 4 {
+						return false
+					}
+					switch x := v.(type) {
+					case *ssa.Parameter:
+						return x == dv
+					case *ssa.BinOp:
+						return walk(x.X, d+1) || walk(x.Y, d+1)
+					case *ssa.UnOp:
+						return walk(x.X, d+1)
+					case *ssa.Phi:
+						for _, e := range x.Edges {
+							if walk(e, d+1) {
+								return true
+							}
+						}
+					}
+					return false
+				}
+				if walk(ifi.Cond, 0) {
+					tested = true
+				}
+			}
+			if tested {
+				r.Add(Obligation{Rule: "NOWRAP-F", Key: key, Pos: w.Pos(ret.Pos()), Status: Undecided, Detail: "the parsed object's ID is returned without a vertical setter, behind a test of dv", Canary: can})
+			} else {
+				r.Add(Obligation{Rule: "NOWRAP-F", Key: key, Pos: w.Pos(ret.Pos()), Status: Violated, Detail: "the ID of the parsed object is returned with its vertical index untouched on a path that does not depend on dv: the vertical index must be f + dv on every non-empty return", Canary: can})
+			}
 		}
 	}
 	if n == 0 {
